@@ -78,7 +78,25 @@ def resolv_words_expr(h):
     raise KeyError('words = …')
 
 
+def clock_reads(h):
+    """Every read of a clock in the functions that write or compare the deadlines of dnsreqs /
+    udp_by_src / DnsProxy.timeout / UdpProxy.timeout, as 'module.function:dotted.call'."""
+    out = []
+    for rel, mod, quals in (('sshuttle/client.py', 'client', ['expire_connections', 'onaccept_tcp', 'onaccept_udp', 'ondns']),
+                            ('sshuttle/server.py', 'server', ['DnsProxy.__init__', 'UdpProxy.__init__', 'main'])):
+        tree = h.parse(rel)
+        for q in quals:
+            f = h.func(tree, q)
+            for c in sorted(h.calls(f, lambda c: True), key=lambda c: (c.lineno, c.col_offset)):
+                name = ast.unparse(c.func)
+                if name.split('.')[-1] in ('time', 'monotonic', 'perf_counter', 'clock', 'now', 'utcnow', 'time_ns',
+                                           'monotonic_ns', 'perf_counter_ns', 'process_time', 'clock_gettime'):
+                    out.append('%s.%s:%s' % (mod, q, name))
+    return out
+
+
 def generate(g, h):
+    g.strlist('CLOCK_READS', lambda: clock_reads(h))
     g.strlist('RESOLV_ACCEPT_RULE', lambda: resolv_accept_rule(h))
     g.string('RESOLV_WORDS_EXPR', lambda: resolv_words_expr(h))
     g.boolean('ONDNS_GUARDS_NO_ID', lambda: guards_no_id(h, 'ondns'))
